@@ -220,6 +220,11 @@ def malformed_inputs(rng):
     # answers that refer to a request the node has sent itself (the bytes are completed in node_case once that request's
     # identifiers are known): the same answer twice, and an answer with the request's End-to-End but another Hop-by-Hop
     out += [("replayed-answer-to-own-request", b"@replay"), ("answer-known-e2e-other-hbh", b"@other-hbh")]
+    # a flood: thousands of minimal messages (bare headers with command codes nobody knows) in one piece, far more than the
+    # state machine takes per tick - the node may drop or answer them, it must not stop
+    def bare(k):
+        return R.encode(R.LMsg(1, (0x80, 0x00, 0xc0)[k % 3], 8388000 + k % 50, (0, 16777251, 99)[k % 3], 70000 + k, 0x77000000 + k, []))
+    out += [("flood-of-3000-bare-messages", b"".join(bare(k) for k in range(3000)))]
     for code in text_avps:      # every text AVP the node may look into, once undecodable in a request and once in an answer
         out.append(("invalid-utf8-avp-%d-request" % code, hostile_message(True, [(code, rng.choice([b"\xffalice\xfe", b"\xc3\x28;1;2", b"\x80"]))])))
         out.append(("invalid-utf8-avp-%d-answer" % code, hostile_message(False, [(code, rng.choice([b"\xff\xfe", b"\x80abc"]))])))
@@ -233,7 +238,7 @@ def node_case(acc, case):
     st = case["state"]
     role = "server" if st == "server-awaiting-cer" else ("client" if st == "client-awaiting-cea" else case["role"])
     sc = N.Scenario(seed=case["seed"], strategy=case["strategy"], p=case.get("p", 0.1), role=role, apps=[16777251],
-                    lines=case["strategy"] != "rr", max_steps=500_000, wall_s=90)
+                    lines=case["strategy"] != "rr", max_steps=500_000 if not case["input"].startswith("flood") else 4_000_000, wall_s=90 if not case["input"].startswith("flood") else 240)
     inputs = dict(malformed_inputs(rng))
     data = inputs[case["input"]]
     wit = {"case": case, "bytes": data.hex()[:400]}
